@@ -484,6 +484,7 @@ pub fn stress(a: &Args) {
     let mut rng = StdRng::seed_from_u64(seed ^ 0x51ee_0002);
     let mut total_emits = 0u64;
     let mut sample_cfg = json!(null);
+    let mut blocked_drop_us: Vec<u64> = vec![];
     for run in 0..runs {
         let cap: Option<usize> = [None, Some(0), Some(1), Some(2), Some(3), Some(8), Some(1), Some(2), Some(5), Some(6), Some(7)][rng.random_range(0..11)];
         let eh = rng.random_bool(0.6);
@@ -636,7 +637,13 @@ pub fn stress(a: &Args) {
             // accepted emit of this phase (a minimum over several calls is insensitive to scheduling noise; an emit that waits
             // for room or for the worker with a timeout makes EVERY refused call slow)
             let (mut min_ref, mut n_ref, mut min_ok, mut n_ok) = (u64::MAX, 0u64, u64::MAX, 0u64);
+            let entered_before = sh.entered.load(Ordering::SeqCst);
             for i in 0..lim {
+                if i == 1 {
+                    // let the worker pick up the first metric and block inside the wrapped sink: what follows then fills the
+                    // queue completely (occupancy = capacity at the last drop, whatever the timing)
+                    wait_until(Duration::from_secs(2), || sh.entered.load(Ordering::SeqCst) > entered_before);
+                }
                 let m = format!("f{}", i);
                 let t0 = Instant::now();
                 let r = do_emit(s0, h0, &m);
@@ -660,10 +667,16 @@ pub fn stress(a: &Args) {
         while !live.is_empty() {
             let i = rng.random_range(0..live.len());
             let (s, h) = live.swap_remove(i);
+            let last = live.is_empty();
+            let t0 = Instant::now();
             if run % 3 == 1 {
                 do_drop_unwinding(s, h);
             } else {
                 do_drop(s, h);
+            }
+            if last && fill_before_last_drop && cap.is_some() {
+                // the stopping drop, made while the wrapped sink is held blocked and the queue is full
+                blocked_drop_us.push(t0.elapsed().as_micros() as u64);
             }
         }
         // a wrapped sink that stays blocked for a while AFTER the last drop (C09: whatever the wrapped sink does,
@@ -676,6 +689,10 @@ pub fn stress(a: &Args) {
         let exited = worker_gone(base_tasks);
         tr().ev(json!({"ev":"end","released":released,"exited":exited}));
     }
+    // C09 "dropping a handle never blocks": the quickest of all stopping drops made while the wrapped sink was held blocked
+    // (one per scenario, judged together in a scenario of their own: a minimum is insensitive to scheduling noise)
+    tr().ev(json!({"ev":"reset","cap":cap_json(None),"eh":false,"run":1999,"latency_summary":true}));
+    tr().ev(json!({"ev":"droplat","n":blocked_drop_us.len(),"min":blocked_drop_us.iter().copied().min().unwrap_or(0).min(2_000_000_000)}));
     // ---- aligned capacity races (C10/C15/C08): the worker is held inside the wrapped sink, the queue has exactly one free
     // slot, and 2-3 producers on clones leave the hook point at the top of submit at the same instant
     let align_rounds = a.num("align", 120);
